@@ -518,7 +518,9 @@ impl Client {
     /// Builds the authentication cookie payload for an abstract class; the acceptance predicates
     /// (tag, IP, age) hold or fail by construction with the harness's own HMAC.
     fn auth_cookie(&mut self, class: &str) -> Option<Vec<u8>> {
-        let secret = self.secret_cfg.clone().unwrap_or_else(|| b"unconfigured".to_vec());
+        // no secret configured: whatever the client signs with must not count -- it tries the EMPTY key (what a missing secret degenerates
+        // to if it is ever used as a key) or an arbitrary one
+        let secret = self.secret_cfg.clone().unwrap_or_else(|| if self.var % 2 == 0 { Vec::new() } else { b"unconfigured".to_vec() });
         let now = now_secs();
         let good_body = self.cookie_json(&self.conc.cookie, &self.conc.cookie_props, self.ctx.client_addr, now);
         let good = ref_sign(&good_body, &secret);
@@ -1132,6 +1134,8 @@ pub struct Timed {
     /// the client idles this many seconds before it sends the named frame of the login prefix
     /// ("LoginStart" | "CookieResponse" | "EncryptionResponse")
     pub pre_delay: Option<(String, u64)>,
+    /// a malformed frame of the given class (see Client::malformed) sent at second `at` of the configuration phase
+    pub bad: Option<(u64, String)>,
 }
 
 impl Timed {
@@ -1149,6 +1153,7 @@ impl Timed {
             wsplit: v.get("wsplit").and_then(|p| p.as_u64()).map(|k| k as usize),
             pipeline: v.get("pipeline").and_then(|p| p.as_u64()).map(|k| k as usize),
             pre_delay: v.get("preDelay").and_then(|p| Some((p["frame"].as_str()?.to_string(), p["secs"].as_u64()?))),
+            bad: v.get("bad").and_then(|p| Some((p["at"].as_u64()?, p["class"].as_str()?.to_string()))),
         }
     }
 }
@@ -1315,6 +1320,9 @@ pub async fn run_round(
             };
             if let Some((at, size)) = tm.plugin {
                 actions.push((at, json!({"k": "PluginMessage", "size": size})));
+            }
+            if let Some((at, class)) = &tm.bad {
+                actions.push((*at, json!({"k": "Malformed", "class": class})));
             }
             let mut pending_rest: Option<(u64, Vec<u8>, Value)> = None; // (deliver at, bytes, frame)
             let mut seg_used = false;
@@ -1491,6 +1499,35 @@ pub fn run_behaviour(idx: usize, b: &Value, seed: u64, var: u64) -> Value {
     let conc = Arc::new(conc);
     let mut jar = Jar { auth: None, sess: None };
     let mut rounds_out = vec![];
+    // a cookie whose BODY was altered under the tag of a genuine one: half of the time the genuine cookie has been presented to (and
+    // accepted by) this very process just before, on a connection of its own -- whatever the process remembers of it must not vouch for
+    // the altered one.  The priming connection is not part of the judged history.
+    let flips_body = hist.iter().any(|r| r["obs"].as_array().map(|o| o.iter().any(|e| e["e"] == "rx" && e["f"]["which"] == "auth" && e["f"]["v"] == "bodyFlip")).unwrap_or(false));
+    if flips_body && (var / 3) % 2 == 0 {
+        if let Some(r0) = hist.first() {
+            let mut evs: Vec<Value> = vec![];
+            for e in r0["obs"].as_array().cloned().unwrap_or_default() {
+                if e["e"] != "rx" {
+                    continue;
+                }
+                let mut e2 = e.clone();
+                let is_flip = e["f"]["which"] == "auth" && e["f"]["v"] == "bodyFlip";
+                if is_flip {
+                    e2["f"]["v"] = json!("fresh");
+                }
+                evs.push(e2);
+                if is_flip {
+                    break;
+                }
+            }
+            let rt = tokio::runtime::Builder::new_current_thread().enable_all().start_paused(true).build().unwrap();
+            let rc = RoundCfg { secret: conc.secret(r0["secret"].as_str().unwrap_or("none")), client_addr: conc.client_addr, expiry: conc.expiry, real_delay_ms: 0 };
+            let mut pj = Jar { auth: None, sess: None };
+            let log = Arc::new(Mutex::new(vec![]));
+            // same variant: the genuine cookie of the priming connection is the one the judged connection alters
+            let _ = rt.block_on(run_round(conc.clone(), rc, &evs, None, HashMap::new(), &mut pj, log, var, seed));
+        }
+    }
     for (k, round) in hist.iter().enumerate() {
         let evs: Vec<Value> = round["obs"].as_array().cloned().unwrap_or_default();
         let rcv = &round["rc"];
@@ -1610,7 +1647,7 @@ pub fn main_timed(args: &[String]) {
                                "obs": var["obs"], "result": var["result"], "why": var["why"], "panic": var["panic"], "hang": var["hang"], "leftover": var["leftover"],
                                "i": k, "var": 0,
                                "hist": [{"secret": "none", "rc": {"ip": "first", "age": "first", "secret": "first"}, "obs": var["obs"], "result": var["result"],
-                                         "panic": var["panic"], "hang": false, "ranAfterEof": false, "maxAlloc": 0, "maxLen": 10000}]});
+                                         "panic": var["panic"], "hang": if rec["judgeHang"] == true { var["hang"].clone() } else { json!(false) }, "ranAfterEof": false, "maxAlloc": 0, "maxLen": 10000}]});
             if pair {
                 // reference: the same actions, the segmented frame delivered whole at the time its last byte arrives, transport accepts whole writes
                 let mut rf = tm.clone();
